@@ -174,6 +174,9 @@ def labeller_event(name, f, n_in):
             rej.append(False)
         except LabellingError:
             rej.append(True)
+        except Exception as e:  # refused all the same (the property does not name the exception class)
+            rej.append(True)
+            ev["notes"].append("n=%d: %s instead of LabellingError" % (n, type(e).__name__))
     ev["rejects_wrong_size"] = all(rej)
     return ev
 
